@@ -3,4 +3,4 @@ From Elk Require Import Base.GoSem Model.C32_Lines Model.C32_Trace.
 Extraction Language OCaml.
 Extraction Blacklist List String Nat.
 Separate Extraction run_impl run_spec get_line_number total_bytes entries spec_line prologue
-  build_trace build_trace_prepend trace_through_awaits Z.of_nat Z.to_nat Z.add Z.sub Z.compare Z.eqb Z.ltb Z.leb Z.to_N N.add.
+  build_trace build_trace_prepend trace_through_awaits reported run_stored report history_ops origin_ops origin_thread Z.of_nat Z.to_nat Z.add Z.sub Z.compare Z.eqb Z.ltb Z.leb Z.to_N N.add.
